@@ -148,34 +148,6 @@ def lexAll (cs : List Char) : List Tok := lexFuel (cs.length + 1) cs
 def tokenize (cs : List Char) : Except RErr (List Tok) :=
   if cs.any (fun c => c.toNat ≥ 128) then .error .Unsupported else .ok (lexAll cs)
 
-/-! ## hex -/
-
-def hexDigit (n : Nat) : Char := if n < 10 then Char.ofNat (48 + n) else Char.ofNat (87 + n)
-
-def hexVal (c : Char) : Option Nat :=
-  let n := c.toNat
-  if 48 ≤ n ∧ n ≤ 57 then some (n - 48)
-  else if 97 ≤ n ∧ n ≤ 102 then some (n - 87)
-  else if 65 ≤ n ∧ n ≤ 70 then some (n - 55)
-  else none
-
-/-- `binascii.hexlify` -/
-def hexlify : List Nat → List Char
-  | [] => []
-  | b :: bs => hexDigit (b / 16 % 16) :: hexDigit (b % 16) :: hexlify bs
-
-/-- `binascii.unhexlify` -/
-def unhexlify : List Char → Except RErr (List Nat)
-  | [] => .ok []
-  | [_] => .error .BinasciiError
-  | a :: b :: rest =>
-    match hexVal a, hexVal b with
-    | some x, some y =>
-      match unhexlify rest with
-      | .ok r => .ok ((x * 16 + y) :: r)
-      | .error e => .error e
-    | _, _ => .error .BinasciiError
-
 /-! ## printer (characters) -/
 
 def natChars (n : Nat) : List Char := Nat.toDigits 10 n
